@@ -49,6 +49,9 @@ pub enum AnyDev {
     Sound(SoundDev),
     /// 9p / rng / rtc / blk blocking helpers need an answer: complete with a canned reply
     Echo { replies: u64 },
+    /// buffered net driver: receive buffers are held until the script completes one (with a proper
+    /// frame or with a runt shorter than the header)
+    Net { rx: Vec<Chain> },
 }
 
 impl Handler for AnyDev {
@@ -69,6 +72,13 @@ impl Handler for AnyDev {
                 // everything is held, except while a blocking transfer runs against the slow device
                 s.hold_all = s.patience == 0;
                 s.on_chain(w, qs, q, c)
+            }
+            AnyDev::Net { rx } => {
+                if q == 0 {
+                    rx.push(c);
+                } else {
+                    qs.complete_len(w, q, &c, 0);
+                }
             }
             AnyDev::Echo { replies } => {
                 *replies += 1;
@@ -320,17 +330,53 @@ impl WithT for Run<'_> {
                 for _ in 0..steps.min(3) {
                     let _ = guard(|| d.can_recv());
                 }
+                // generated history: the device completes held receive buffers with a frame or with
+                // a runt; the caller receives, keeps and recycles buffers
+                let mut held_rx = Vec::new();
                 for &op in c.script.iter() {
-                    match op % 3 {
+                    match op % 6 {
                         0 => {
-                            let _ = guard(|| d.can_recv());
+                            let _ = guard(|| (d.can_recv(), d.can_send()));
                         }
-                        1 => step!("receive", d.receive().map(|_| ())),
+                        1 => {
+                            let mut got = None;
+                            step!("receive", {
+                                let r = d.receive();
+                                match r {
+                                    Ok(b) => {
+                                        got = Some(b);
+                                        Ok(())
+                                    }
+                                    Err(e) => Err(e),
+                                }
+                            });
+                            if let Some(b) = got {
+                                held_rx.push(b);
+                            }
+                        }
+                        2 | 3 => {
+                            let len = if op % 6 == 2 { 12 + 20 + (op as u32 / 6) } else { (op as u32 / 6) % 10 };
+                            self.dev.with(|dv| {
+                                world::with(|w| {
+                                    let dv = &mut *dv;
+                                    if let AnyDev::Net { rx } = &mut dv.h {
+                                        if !rx.is_empty() {
+                                            let ch = rx.remove(0);
+                                            dv.qs.complete_len(w, 0, &ch, len);
+                                        }
+                                    }
+                                })
+                            });
+                        }
                         _ => {
-                            let _ = guard(|| d.can_send());
+                            if !held_rx.is_empty() {
+                                let b = held_rx.remove((op as usize / 6) % held_rx.len());
+                                step!("recycle_rx_buffer", d.recycle_rx_buffer(b));
+                            }
                         }
                     }
                 }
+                drop(held_rx);
                 finish!(d);
             }
             D::Rng => {
@@ -502,6 +548,7 @@ fn setup(c: &TCase) -> (u32, usize, Shared<AnyDev>) {
             vec![],
         )),
         D::Rng | D::Rtc | D::P9 | D::Socket | D::Console => AnyDev::Echo { replies: 0 },
+        D::Net => AnyDev::Net { rx: vec![] },
         _ => AnyDev::Hold { chains: 0 },
     };
     // socket/console tx must complete for blocking sends; their rx buffers are simply held
